@@ -1,0 +1,99 @@
+//go:build verif
+
+package protocol
+
+// Add-only export file for the verification harness in /verif (build tag
+// "verif"), property C05: the ref-counted pages of buffer.go.  Thin wrappers
+// only, nothing here is compiled into normal builds.
+
+import "sync/atomic"
+
+const VerifPageSize = pageSize
+
+// VerifPageHandle identifies a *page.  It is comparable (usable as a map
+// key) and keeps the page reachable, so the identity stays stable and the
+// refcount of a page that left every buffer can still be read.
+type VerifPageHandle struct{ p *page }
+
+// VerifPage is a snapshot of one page.
+type VerifPage struct {
+	Handle VerifPageHandle
+	Offset int64
+	Length int
+	Refc   uintptr
+}
+
+func verifPage(p *page) VerifPage {
+	return VerifPage{
+		Handle: VerifPageHandle{p},
+		Offset: p.offset,
+		Length: p.length,
+		Refc:   atomic.LoadUintptr((*uintptr)(&p.refc)),
+	}
+}
+
+func verifPages(pages contiguousPages) []VerifPage {
+	out := make([]VerifPage, len(pages))
+	for i, p := range pages {
+		out[i] = verifPage(p)
+	}
+	return out
+}
+
+// VerifPageState reads the current refcount (atomic load) and length of a page.
+func VerifPageState(h VerifPageHandle) (refc uintptr, length int) {
+	return atomic.LoadUintptr((*uintptr)(&h.p.refc)), h.p.length
+}
+
+// Data copies the bytes [lo, hi) of the page's backing array.
+func (h VerifPageHandle) Data(lo, hi int) []byte {
+	return append([]byte(nil), h.p.buffer[lo:hi]...)
+}
+
+type VerifPageBuffer struct{ pb *pageBuffer }
+
+func VerifNewPageBuffer() *VerifPageBuffer { return &VerifPageBuffer{newPageBuffer()} }
+
+func (v *VerifPageBuffer) Write(b []byte) (int, error) { return v.pb.Write(b) }
+
+func (v *VerifPageBuffer) Size() int64 { return v.pb.Size() }
+
+func (v *VerifPageBuffer) Unref() { v.pb.unref() }
+
+// Pages lists pb.pages in order.
+func (v *VerifPageBuffer) Pages() []VerifPage { return verifPages(v.pb.pages) }
+
+func (v *VerifPageBuffer) Ref(begin, end int64) *VerifPageRef {
+	return &VerifPageRef{v.pb.ref(begin, end)}
+}
+
+type VerifPageRef struct{ ref *pageRef }
+
+// Pages lists ref.pages in order (empty once the ref is closed).
+func (r *VerifPageRef) Pages() []VerifPage { return verifPages(r.ref.pages) }
+
+func (r *VerifPageRef) Offset() int64 { return r.ref.offset }
+
+func (r *VerifPageRef) Size() int64 { return r.ref.Size() }
+
+func (r *VerifPageRef) Closed() bool { return atomic.LoadUint32(&r.ref.once) != 0 }
+
+// Bytes returns everything visible through the ref, read with ReadAt from
+// offset 0 so that the cursor does not move; nil if the ref is closed.
+func (r *VerifPageRef) Bytes() []byte {
+	if r.Closed() {
+		return nil
+	}
+	buf := make([]byte, r.ref.Size())
+	off := 0
+	for off < len(buf) {
+		n, _ := r.ref.ReadAt(buf[off:], int64(off))
+		if n == 0 {
+			break
+		}
+		off += n
+	}
+	return buf[:off]
+}
+
+func (r *VerifPageRef) Close() error { return r.ref.Close() }
